@@ -8,7 +8,7 @@ from ..engine import rule
 from ..cxx_ir import CALL_KINDS, CTOR_KINDS
 from ..cfg import cfg_of, const_eval
 from ..cxx_ir import LOOP_KINDS
-from .common import (short, inst, live_funcs, calls_in, callee_func, member_path, local_inits, strip_casts,
+from .common import (short, inst, live_funcs, calls_in, callee_func, member_path, local_inits, strip_casts, effectively_const,
                      enclosing_map, ancestors, assignments_to, unnegate)
 from .equality import NODE_REC, SPEC_REC, node_fields, tokens, fields_read, _base_is
 
@@ -281,6 +281,53 @@ def m5(ctx):
                       '%s: the new treespec `%s` is returned without PYTREESPEC_SANITY_CHECK'
                       % (inst(f), holder), c.loc)
     ctx.analysed['make_unique_PyTreeSpec_sites'] = n
+    # a treespec derived from an existing one (a non-static method that returns treespecs) is
+    # not handed out through a factory that drops the namespace: `child(i)` of a namespaced
+    # treespec must carry what `children()[i]` carries
+    rec = prog.records.get('optree::PyTreeSpec')
+    static_names = {nm for nm, sig, isc, iss, acc in rec.methods if iss} if rec is not None else set()
+    nd = 0
+    for f in live_funcs(prog):
+        if f.body is None or f.is_lambda or f.record != 'optree::PyTreeSpec' or f.name in static_names or \
+                getattr(f, 'is_static', False):
+            continue
+        if 'unique_ptr<' not in (f.sig or '') and 'unique_ptr<' not in (getattr(f, 'rtype', '') or ''):
+            rets_ = [r for r in f.body.walk() if r.kind == 'ReturnStmt' and r.kids and
+                     'unique_ptr<optree::PyTreeSpec' in ((r.kids[0].type or '').replace('PyTreeSpec', 'optree::PyTreeSpec')
+                                                         .replace('optree::optree::', 'optree::'))]
+            if not rets_:
+                continue
+        for r in f.body.walk():
+            if r.kind != 'ReturnStmt' or not r.kids or r.kids[0] is None:
+                continue
+            v = strip_casts(r.kids[0])
+            while v is not None and v.kind in CTOR_KINDS and len(v.kids) == 1:
+                v = strip_casts(v.kids[0])
+            if v is None or v.kind != 'CallExpr':
+                continue
+            g = prog.target(f, v)
+            if g is None or g.body is None or g.record != 'optree::PyTreeSpec' or \
+                    'PyTreeSpec' not in (v.type or ''):
+                continue
+            nd += 1
+            pnames = {p_[0] for p_ in g.params if p_[0]}
+            carries = False
+            for n_ in g.body.walk():
+                lhs = rhs = None
+                if n_.kind == 'BinaryOperator' and n_.op == '=' and len(n_.kids) == 2:
+                    lhs, rhs = n_.kids
+                elif n_.kind == 'CXXOperatorCallExpr' and n_.callee_name() == 'operator=' and len(n_.kids) == 3:
+                    lhs, rhs = n_.kids[1], n_.kids[2]
+                if lhs is not None and lhs.kind == 'MemberExpr' and lhs.name == 'm_namespace' and \
+                        member_path(strip_casts(rhs)) in pnames:
+                    carries = True
+            ctx.check('%s/returns-%s' % (short(f), g.name), carries,
+                      '%s: the treespec returned through %s() carries the namespace it is given' % (inst(f), g.name),
+                      '%s returns %s(...), which does not record the namespace it is given: the derived '
+                      'treespec has no namespace although the treespec it was derived from (and its siblings '
+                      'built in place) have one - `.namespace`, repr and what is rebuilt from it differ'
+                      % (inst(f), g.name), r.loc)
+    ctx.analysed['derived_specs_through_factories'] = nd
 
 
 def _is_unpickled(rhs):
@@ -602,13 +649,43 @@ def _reader_table(ctx, prog):
     by_size = sorted(idx_by_var.items(), key=lambda kv: -len(kv[1]))
     tvar, svar = by_size[0][0], by_size[1][0]
 
+    inits = local_inits(f)
+    lambdas = {}
+    for v in f.body.walk():
+        if v.kind == 'VarDecl' and v.name and v.kids and v.kids[-1] is not None:
+            for le in v.kids[-1].walk(into_lambdas=False):
+                if le.kind == 'LambdaExpr':
+                    lf = prog.lambda_func(f, le)
+                    if lf is not None and lf.body is not None:
+                        lambdas[v.name] = lf
+
+    def deep_reads(e, var, depth=0, seen=None):
+        """positions of `var` that flow into e: read directly, through a local that was
+        initialised from them (`const py::object cls = t[4]`), or inside a local lambda e calls"""
+        seen = seen if seen is not None else set()
+        out = list(_index_reads(e, var))
+        if e is None or depth > 3:
+            return out
+        for n in e.walk():
+            if n.kind == 'DeclRefExpr' and (n.ref or {}).get('kind') == 'VarDecl':
+                nm = n.ref.get('name')
+                if nm in (tvar, svar) or nm in seen:
+                    continue
+                if nm in lambdas:
+                    seen.add(nm)
+                    out += deep_reads(lambdas[nm].body, var, depth + 1, seen)
+                elif nm in inits and inits[nm] is not e:
+                    seen.add(nm)
+                    out += deep_reads(inits[nm], var, depth + 1, seen)
+        return out
+
     def record(lhs, rhs, where):
         if lhs is None or lhs.kind != 'MemberExpr':
             return
         fld = lhs.name
-        for i in _index_reads(rhs, tvar):
+        for i in deep_reads(rhs, tvar):
             node_tab.setdefault(i, set()).add(fld)
-        for i in _index_reads(rhs, svar):
+        for i in deep_reads(rhs, svar):
             state_tab.setdefault(i, set()).add(fld)
     for n in f.body.walk():
         if n.kind == 'BinaryOperator' and n.op == '=':
@@ -821,14 +898,36 @@ def s2(ctx):
     prog = ctx.cxx()
     f = prog.one('PyTreeSpec::FromPickleable')
     cfg = cfg_of(f)
-    looks = [c for c in calls_in(f.body, {'Lookup'})]
-    ctx.require(len(looks) >= 2, 'FromPickleable: %d Lookup calls' % len(looks))
+    # (lookup call, the namespace expression as FromPickleable itself writes it, the statement of
+    # FromPickleable from which the lookup happens) - a lookup inside a local lambda is judged at
+    # the calls of that lambda, with the argument that is bound to the lambda's parameter
+    direct = [c for c in calls_in(f.body, {'Lookup'})]
+    sites = [(c, (c.call_args()[1] if len(c.call_args()) > 1 else None), c, callee_func(prog, f, c)) for c in direct]
+    for v in f.body.walk():
+        if v.kind == 'VarDecl' and v.name and v.kids and v.kids[-1] is not None:
+            for le in v.kids[-1].walk(into_lambdas=False):
+                if le.kind != 'LambdaExpr':
+                    continue
+                lf = prog.lambda_func(f, le)
+                if lf is None or lf.body is None:
+                    continue
+                inner = calls_in(lf.body, {'Lookup'})
+                pn = [p_[0] for p_ in lf.params]
+                for c in inner:
+                    a = c.call_args()
+                    nsp = member_path(a[1]) if len(a) > 1 and a[1] is not None else None
+                    for call in f.body.walk():
+                        if call.kind == 'CXXOperatorCallExpr' and call.callee_name() == 'operator()' and \
+                                len(call.kids) >= 2 and member_path(strip_casts(call.kids[1])) == v.name:
+                            args = call.kids[2:]
+                            ns_here = args[pn.index(nsp)] if nsp in pn and pn.index(nsp) < len(args) else \
+                                (a[1] if len(a) > 1 else None)
+                            sites.append((c, ns_here, call, callee_func(prog, lf, c)))
+    looks = [s_[2] for s_ in sites]
+    ctx.require(len(sites) >= 2, 'FromPickleable: %d Lookup calls' % len(sites))
     # the namespace argument is the recorded namespace (what state[2] was stored into)
     inits = local_inits(f)
-    for c in looks:
-        t = callee_func(prog, f, c)
-        args = c.call_args()
-        ns = args[1] if len(args) > 1 else None
+    for c, ns, anchor, t in sites:
         p = member_path(ns)
         srcs = assignments_to(f, p) if p else []
         # chained assignment: out->m_namespace = registry_namespace = cast(state[2])
@@ -842,7 +941,7 @@ def s2(ctx):
                   from_state or 'm_namespace' in tkn,
                   'registry lookup uses the namespace recorded in the pickle',
                   'registry lookup uses `%s`, which is not the namespace recorded in the pickle'
-                  % (ns.text(3) if ns is not None else None), c.loc)
+                  % (ns.text(3) if ns is not None else None), anchor.loc)
     # a null registration is rejected before the node is accepted: some throw is guarded by
     # `node.custom == nullptr` and post-dominates... (every path from the lookup to the loop
     # back edge passes the null test)
@@ -994,7 +1093,7 @@ def m8(ctx):
             cfg = cfg_of(f)
             snaps = {}
             for v in f.body.find('VarDecl'):
-                if v.kids and v.name and (v.type or '').startswith('const '):
+                if v.kids and v.name and effectively_const(f, v):
                     p = _poly(v.kids[-1], {})
                     if p and len(p) == 1 and list(p.values()) == [1] and list(p)[0] and list(p)[0][0].startswith('size('):
                         snaps[v.name] = (list(p)[0][0], v)
